@@ -86,7 +86,7 @@ def signature_rules(cx, R='C06'):
                                  'all-keys-seen': r'^!ok\(<FilterMap<I;F> as Iterator>::next\('}, expect=1, fn=f)
         sec = cx.returns(f, r'Proof::(Secure|Bogus|Indeterminate)')
         cx.check(R + '.G3', len(sec) == 0, f.path, 'returns', 'no-constant-proof-origin', str(sec))
-        g = cx.fn(R + '.G3', N + 'verify_rrsig_with_keys::{closure#0}')
+        g = cx.fn(R + '.G3', N + 'verify_rrsig_with_keys::{closure@filter_map#0}')
         if g:
             some = cx.returns(g, r'^Option::Some\(')
             cx.guard(R + '.G3', some, {'collision-cap-or-first':
